@@ -532,11 +532,16 @@ func renterTargets(c *Ctx, name string) []*ir.Func {
 	return out
 }
 
-func c10r1(c *Ctx) {
+func c10r1(c *Ctx) { c10guards(c, nil) }
+
+// c10guards evaluates the guard table for the client functions selected by only (nil: all).
+func c10guards(c *Ctx, only map[string]bool) {
 	table := c10table()
 	names := make([]string, 0, len(table))
 	for n := range table {
-		names = append(names, n)
+		if only == nil || only[n] {
+			names = append(names, n)
+		}
 	}
 	sortStrings(names)
 	for _, name := range names {
